@@ -68,7 +68,7 @@ func genMain(args []string, appMode bool) error {
 	if c.profile != "quick" && c.profile != "thorough" {
 		return fmt.Errorf("gen: unknown profile %q", c.profile)
 	}
-	if c.focus != "" && c.focus != "hooks" && c.focus != "faults" {
+	if c.focus != "" && c.focus != "hooks" && c.focus != "faults" && !strings.HasPrefix(c.focus, "scen:") {
 		return fmt.Errorf("gen: unknown focus %q", c.focus)
 	}
 	if c.maxops < 1 {
@@ -230,7 +230,7 @@ func (g *Gen) history() {
 	// scenario choice first, so that the `# scenario:` comment can precede the history
 	scenario := ""
 	g.scenarioPrefix = 0
-	if g.chance(0.35) {
+	if strings.HasPrefix(g.cfg.focus, "scen:") || g.chance(0.35) {
 		scenario = g.pickScenario()
 		if g.chance(0.5) {
 			g.scenarioPrefix = g.between(1, 4)
